@@ -17,7 +17,8 @@ open Voi Voi.Spec
 /-- point argument: `enc` (32 bytes) or `enc ‖ λ` (64 bytes, λ ≠ 0 as a field element) -/
 def ptOfBytes (b : Bytes) : Option Pt :=
   if b.size = 32 then Pt.decode b
-  else if b.size = 64 then
+  else if b.size = 64 ∨ b.size = 65 then
+    -- 65 bytes: the last byte only tells the Go side how far to leave the coordinate limbs unreduced
     if Fp.ofBytes (bslice b 32 32) = 0 then none else Pt.decode (bslice b 0 32)
   else none
 
